@@ -966,6 +966,24 @@ def add_lookup_gadget(rnd, spec):
     spec['lookup_gadget'] = out
 
 
+def add_long_chain_gadget(rnd, spec):
+    """a running balance: a column of several hundred cells, each calculated from the one above
+    (sheet Bal).  Deep structures, shallow evaluations: the harness evaluates it in address
+    order."""
+    if 'Bal' in spec['sheets']:
+        return None
+    spec['sheets'].append('Bal')
+    n = rnd.choice((320, 400, 480))
+    cells = spec['cells']
+    cells.append({'a': 'Bal!A1', 'v': rnd.choice((1000.0, 250.0, 1.0))})
+    cells.append({'a': 'Bal!B1', 'v': rnd.choice((0.01, 0.001, 0.0)), 'w': [0.02, 0.01, 0.0, 0.005]})
+    for r in range(2, n + 1):
+        cells.append({'a': f'Bal!A{r}', 'f': f'=A{r - 1}*(1+$B$1)', 'p': [f'Bal!A{r - 1}', 'Bal!B1'],
+                      'd': []})
+    spec['long_chain'] = {'sheet': 'Bal', 'n': n}
+    return n
+
+
 def add_table_gadget(rnd, spec):
     """the same small table at the same place on up to two sheets; the formulas of its last
     column and a total next to it are written with structured references ([@qty], Tbl0[total]).
